@@ -419,6 +419,93 @@ def u_add_node(ctx, index):
   ctx.check('C06/add_node/node_set', z3.ForAll([n_], z3.Select(h.nodes.mem, n_) == z3.Or(z3.Select(nodes0.mem, n_), n_ == xz)))
 
 
+def u_ring_init(ctx, index):
+  """__init__(nodes) for a list of distinct nodes: starts from the empty ring (I_ring holds
+  trivially) and calls add_node once per node; with add_node's contract (verified by unit add_node)
+  used at the call site, I_ring and `self.nodes == set(nodes[:k])` are the loop invariant: the
+  constructed ring satisfies I_ring and holds exactly the listed nodes."""
+  h = RM.RingHarness(ctx, index)
+  ip = h.ip
+  ip.label_prefix = 'C06/'
+  I = z3.IntSort()
+  nodes_arg = SymSeq(TNode, ctx.fresh(z3.SeqSort(Node), 'node_list'), 'node_list')
+  a_, b_, j_ = z3.Int('a?'), z3.Int('b?'), z3.Int('j?')
+  n_ = z3.Const('n?', Node)
+  N = nodes_arg.length()
+  ctx.assume(z3.ForAll([a_, b_], z3.Implies(z3.And(0 <= a_, a_ < b_, b_ < N), nodes_arg.term[a_] != nodes_arg.term[b_])))
+  rc = ctx.fresh(I, 'replica_count_arg')
+  ctx.assume(rc >= 2)
+  # the object's own fields are created by __init__; the harness models are re-pointed to them
+  obj = h.obj
+  for f in ('ring', 'ring_len', 'nodes', 'nodes_len', 'replica_count', 'hash_type'):
+    obj.fields.pop(f, None)
+  ip.ext['new_set'] = lambda ip2: h.nodes_reset(ip2)
+  st = {}
+
+  def nodes_reset(ip2):
+    s0 = SymSet.empty(ip2, TNode, 'nodes')
+    h.nodes = s0
+    return s0
+  h.nodes_reset = nodes_reset
+
+  def cur_ring():
+    r = obj.fields['ring']
+    if isinstance(r, PyList):
+      r = r.to_symseq(ip, TEntry)
+      r.name = 'ring'
+      obj.fields['ring'] = r
+    h.ring = r
+    return r
+
+  def I_now():
+    cur_ring()
+    return h.I_ring()
+
+  def add_node_spec(ip2, args, kw):
+    (selfobj, x) = args[0], args[1]
+    xz = TNode.enc(ip2, x)
+    cur_ring()
+    ctx.check('C06/__init__/add_node_called_for_a_new_node', z3.Not(z3.Select(h.nodes.mem, xz)))
+    for l, f in h.I_ring():
+      ctx.check('C06/__init__/add_node_called_on_a_well_formed_ring/' + l, f)
+    old_nodes = h.nodes.snapshot()
+    h.ring.havoc(ip2, 'ring')
+    h.nodes.havoc(ip2, 'nodes')
+    obj.fields['ring_len'] = ctx.fresh(I, 'ring_len')
+    obj.fields['nodes_len'] = ctx.fresh(I, 'nodes_len')
+    h.e1 = z3.Function(ctx.fresh_name('e1'), Node, I)
+    h.e2 = z3.Function(ctx.fresh_name('e2'), Node, I)
+    for l, f in h.I_ring():
+      ctx.assume(f)
+    ctx.assume(z3.ForAll([n_], z3.Select(h.nodes.mem, n_) == z3.Or(z3.Select(old_nodes.mem, n_), n_ == xz)))
+    ctx.assume(h.nodes.card == old_nodes.card + 1)
+    return None
+  ip.specs[CHR + '.add_node'] = Spec(CHR + '.add_node', add_node_spec)
+
+  def inv(fr):
+    k = fr.loop_k[0]
+    members = z3.ForAll([n_], z3.Select(h.nodes.mem, n_) ==
+                        z3.Exists([j_], z3.And(0 <= j_, j_ < k, nodes_arg.term[j_] == n_)))
+    return list(I_now()) + [('configured_nodes_are_the_listed_prefix', members), ('node_count', h.nodes.card == k)]
+
+  def havoc(fr):
+    cur_ring().havoc(ip, 'ring')
+    h.nodes.havoc(ip, 'nodes')
+    obj.fields['ring_len'] = ctx.fresh(I, 'ring_len')
+    obj.fields['nodes_len'] = ctx.fresh(I, 'nodes_len')
+    h.e1 = z3.Function(ctx.fresh_name('e1'), Node, I)
+    h.e2 = z3.Function(ctx.fresh_name('e2'), Node, I)
+  ip.loops[(CHR + '.__init__', 0)] = LoopSpec('for node in nodes', inv, havoc, locals_modified=[])
+  ht = ctx.fresh(Atom, 'hash_type_arg')
+  ip.run(CHR + '.__init__', [nodes_arg], kwargs={'replica_count': rc, 'hash_type': ht}, self_obj=obj)
+  ctx.cover('__init__/returns')
+  for l, f in I_now():
+    ctx.check('C06/__init__/I_ring/' + l, f)
+  ctx.check('C06/__init__/configured_nodes_are_the_listed_ones',
+            z3.ForAll([n_], z3.Select(h.nodes.mem, n_) == z3.Exists([j_], z3.And(0 <= j_, j_ < N, nodes_arg.term[j_] == n_))))
+  ctx.check('C06/__init__/settings_kept', z3.And(obj.fields['replica_count'] == rc, obj.fields['hash_type'] == ht))
+
+
 def u_minimal_disruption(ctx, index):
   """Lemma s1 over the contracts.  E = old entries (positions unique), E' = E plus entries of a
   new node x at fresh positions (add_node's frame: old entries unchanged) -- or E minus x's
@@ -481,6 +568,7 @@ def build():
     Unit('hashing.ConsistentHashRing.get_nodes[order]', u_get_nodes_order, [CHR + '.get_nodes'], expect_covers=['get_nodes_order/returns']),
     Unit('hashing.ConsistentHashRing.add_node', u_add_node, [CHR + '.add_node'], expect_covers=['add_node/returns', 'add_node/replica_inserted'],
          replay=replay_ring, native_clauses=['C06/add_node/I_ring/sorted_unique']),
+    Unit('hashing.ConsistentHashRing.__init__', u_ring_init, [CHR + '.__init__'], expect_covers=['__init__/returns']),
     Unit('hashing.ConsistentHashRing.remove_node', u_remove_node, [CHR + '.remove_node'], expect_covers=['remove_node/returns'],
          replay=replay_ring, native_clauses=['C06/remove_node/no_entry_of_the_removed_node']),
     Unit('C06/lemma/minimal_disruption', u_minimal_disruption, [], expect_covers=['lemma/minimal_disruption']),
